@@ -18,7 +18,7 @@ def script(rng, n, seed0, maxsize=70000, gaps=True):
 
 def make_cases(tier, rng):
     cases = []
-    n = 5 if tier == "quick" else 60
+    n = 5 if tier == "quick" else 2500
     for proto in PROTOS:
         for i in range(n):
             pre = script(rng, rng.randint(0, 4), 100, maxsize=9000) if rng.random() < 0.6 else []
